@@ -671,7 +671,9 @@ fn oracle_c05(out: &mut RunOut, model: &Model, raw: &Raw) {
             (None, None) => {}
             (Some(h), Some(s)) => {
                 if let Some((rel, name, ret)) = hover_from(h) {
-                    if rel != s.0 || name != s.2 || ret != a.lib_ret {
+                    // a file outside the workspace root is shown by its file name
+                    let same_file = rel == s.0 || (s.0.starts_with("../") && s.0.rsplit('/').next() == Some(rel.as_str()));
+                    if !same_file || name != s.2 || ret != a.lib_ret {
                         out.violate("hover-disagrees", format!("{}: hover describes {} in `{}` -> {:?}; resolution selects {:?} -> {:?}", here, name, rel, ret, s, a.lib_ret));
                     }
                 } else {
@@ -730,7 +732,8 @@ fn oracle_c05(out: &mut RunOut, model: &Model, raw: &Raw) {
                         0 => out.violate("completion-misses-visible-fixture", format!("{}: completion in an empty signature does not offer the fixture resolution selects ({:?})", here, p)),
                         1 => {
                             if let Some((rel, _n, _r)) = hover_from(&c[0].1) {
-                                if rel != p.0 && av.as_ref() == Some(p) {
+                                let same_file = rel == p.0 || (p.0.starts_with("../") && p.0.rsplit('/').next() == Some(rel.as_str()));
+                                if !same_file && av.as_ref() == Some(p) {
                                     out.violate("completion-doc-disagrees", format!("{}: completion documentation says `{}`, resolution selects {:?}", here, rel, p));
                                 }
                             }
